@@ -213,6 +213,47 @@ fn exhaustive_lists_job(chunk: usize, chunks: usize, maxlen: usize) -> Stats {
     st
 }
 
+/// Both lists are slices of ONE operand vector (two prefixes, a prefix and a suffix, the same slice
+/// twice): what the lists contain decides, not where they are stored.
+fn check_aliased_slices(st: &mut Stats, env: &BDDEnv<usize>, uni: &[usize], ops: &[&(D, Tt)], rng: &mut Rng) {
+    let nv = uni.len() as u32;
+    let idx = idx_fn(uni);
+    let ds: Vec<D> = ops.iter().map(|x| Rc::clone(&x.0)).collect();
+    let ts: Vec<Tt> = ops.iter().map(|x| x.1.clone()).collect();
+    let n = ds.len().min(4);
+    for _ in 0..3 {
+        let (i, j) = (rng.usize(n + 1), rng.usize(n + 1));
+        let (ra, rb) = match rng.below(3) {
+            0 => (0..i, 0..j),
+            1 => (0..i, i.min(j)..n),
+            _ => (i.min(j)..i.max(j), i.min(j)..i.max(j)),
+        };
+        for (kind, cmp) in [("count_leq", Cmp::AtMost), ("count_lt", Cmp::LessThan), ("count_geq", Cmp::AtLeast), ("count_gt", Cmp::MoreThan), ("count_eq", Cmp::Exactly)] {
+            st.evals += 1;
+            st.bump("aliased_slice_comparisons");
+            let case = || json!({"kind": kind, "a": tables_json(&ops[ra.clone()]), "b": tables_json(&ops[rb.clone()]), "universe": labels_json(uni)});
+            util::budget(50_000_000, 1000);
+            let (a, b) = (&ds[ra.clone()], &ds[rb.clone()]);
+            let r = guarded(|| match kind {
+                "count_leq" => env.count_leq(a, b),
+                "count_lt" => env.count_lt(a, b),
+                "count_geq" => env.count_geq(a, b),
+                "count_gt" => env.count_gt(a, b),
+                _ => env.count_eq(a, b),
+            });
+            let want = count_vs_count(nv, &ts[ra.clone()], &ts[rb.clone()], cmp);
+            match r {
+                Ok(r) => {
+                    if tt_of_bdd(&r, nv, &idx).ok().as_ref() != Some(&want) {
+                        st.violate("c05.count", format!("C05:{}:wrong-value", kind), format!("{}(ops[{:?}], ops[{:?}]) — both lists are slices of one vector — = {} but counting gives table {}\n ops = {:?}", kind, ra, rb, short(&r), want.hex(), ops.iter().map(|x| short(&x.0)).collect::<Vec<_>>()), case());
+                    }
+                }
+                Err(c) => st.violate("c05.panic", format!("C05:{}:{}", kind, c.signature()), format!("{:?}", c), case()),
+            }
+        }
+    }
+}
+
 fn random_job(ctx: &Ctx, job: usize, iters: u64, maxlen: usize) -> Stats {
     let mut st = Stats::new();
     let mut rng = Rng::stream(ctx.seed, "C05.random", job as u64);
@@ -261,6 +302,9 @@ fn random_job(ctx: &Ctx, job: usize, iters: u64, maxlen: usize) -> Stats {
         let refs2: Vec<&(D, Tt)> = ops2.iter().collect();
         let cut = refs.len().min(4);
         check_lists(&mut st, env, &uni, &refs[..cut], &refs2, "random");
+        if it % 4 == 0 {
+            check_aliased_slices(&mut st, env, &uni, &refs, &mut rng);
+        }
         st.bump("random_cases");
         st.max("max_list_length", len as u64);
     }
@@ -433,7 +477,7 @@ pub fn run(ctx: &Ctx) -> (Stats, Spec) {
     let parts = util::par_jobs(16, |job| super::wide::wide_job(ctx, "C05", job, wide_iters));
     st.merge(crate::report::merge_all(parts));
     let spec = Spec {
-        rule: "API: operand lists (exhaustive over all 2-variable functions up to length 3; random with repeats and complementary pairs up to length 5 [quick] / 7 [thorough]) x bounds n in [-3, len+3] plus {i64::MIN+len, i64::MIN+len+1, -2^40, 2^40, i64::MAX-len-1, i64::MAX-len} x {aln, amn, exn}; list-vs-list for all five comparisons; long lists of 8-18 [quick] / 8-21 [thorough] operands (literals, small functions, repeats, constants over 6 variables) against the bounds {0, 1, len/2, len-1, len, random} and on either side of a list comparison. Language: `[..] cmp n` and `[..] cmp [..]` with trailing commas, constants {0,1,len-1,len,len+1,2,2^31,2^63-1} exact and {2^63, 2^64-1} 'rejected or exact'. distinct = (kind, operand tables, bound); non-trivial = >= 2 non-constant operands. MANY VARIABLES: the same judgement on environments with 65-200 variables (more than a machine word of them), where operands are random DNFs and results are compared pointwise on 48 sampled assignments per case (biased towards the operands' cubes) and walked for order / reduction.".into(),
+        rule: "API: operand lists (exhaustive over all 2-variable functions up to length 3; random with repeats and complementary pairs up to length 5 [quick] / 7 [thorough]) x bounds n in [-3, len+3] plus {i64::MIN+len, i64::MIN+len+1, -2^40, 2^40, i64::MAX-len-1, i64::MAX-len} x {aln, amn, exn}; list-vs-list for all five comparisons, also with both lists given as slices of ONE operand vector (prefixes, prefix and suffix, the same slice twice); long lists of 8-18 [quick] / 8-21 [thorough] operands (literals, small functions, repeats, constants over 6 variables) against the bounds {0, 1, len/2, len-1, len, random} and on either side of a list comparison. Language: `[..] cmp n` and `[..] cmp [..]` with trailing commas, constants {0,1,len-1,len,len+1,2,2^31,2^63-1} exact and {2^63, 2^64-1} 'rejected or exact'. distinct = (kind, operand tables, bound); non-trivial = >= 2 non-constant operands. MANY VARIABLES: the same judgement on environments with 65-200 variables (more than a machine word of them), where operands are random DNFs and results are compared pointwise on 48 sampled assignments per case (biased towards the operands' cubes) and walked for order / reduction.".into(),
         assumptions: vec![
             "bounds are restricted to those for which n +/- (list length) does not overflow i64, as the statement says".into(),
             "for constants >= 2^63 the implementation may reject with an error or must read exactly that number".into(),
